@@ -319,7 +319,7 @@ class C18(Prop):
     table_groups = ['Chain', 'Messages']
     theorems = ['BtcVerif.C18.' + t for t in (
         'chain_magic_length', 'payload_eq_spec', 'frame_eq_spec', 'payload_roundtrip', 'parse_frame',
-        'reframe_identical', 'parse_reframe', 'fromBytes_frame', 'parse_stream', 'bad_magic_rejected',
+        'reframe_identical', 'parse_reframe', 'fromBytes_frame', 'parse_stream', 'parse_stream_append', 'bad_magic_rejected',
         'bad_checksum_rejected', 'corrupted_payload_rejected', 'accepted_frame_valid', 'truncated_frame_trunc',
         'length_guard', 'position_le_frame_end')]
     anchors = ([('bitcoin/messages.py', 'MsgSerializable.to_bytes'),
@@ -347,7 +347,11 @@ class C18(Prop):
             'position after every call and re-framing compared; for small frames every single-byte corruption and '
             'every truncation point; length fields 0, exact, +-1, MAX_SIZE, MAX_SIZE+1, 2^31-1, 2^31, 2^32-1 with '
             'unchanged / recomputed checksum; unknown and NUL-tailed commands, foreign magic, payload-level '
-            'malformations; non-trivial = not an argument-free message; distinct by canonical request line')
+            'malformations.  Strict comparison (bytes, field values, position, exception family) on frames of in-domain '
+            'messages and on the four fault classes; where the property is silent (out-of-range field values, '
+            'non-canonical frames, unknown commands, errors inside msg_deser of a well-framed payload) the model marks '
+            'the entry and a difference there is not an alarm.  non-trivial = not an argument-free message; distinct '
+            'by canonical request line')
 
     # ---- real code ------------------------------------------------------------------------------
     def setup(self):
@@ -527,8 +531,14 @@ class C18(Prop):
 
     # ---- generation -----------------------------------------------------------------------------
     def model_frames(self, items):
-        """[(chain, msg)] -> [bytes | None] through the model's to_bytes"""
+        """[(chain, msg)] -> [bytes | None] through the model's to_bytes; for a sample of in-domain messages the
+        executable Spec (independent oracle, `frame_eq_spec`) must give the same bytes"""
         outs = self.ask(['c18.frame\t%s\t%s' % (ch, show_msg(m)) for ch, m in items])
+        sample = [i for i, o in enumerate(outs) if o.startswith('W:')][:40]
+        spec = self.ask(['c18.spec.frame\t%s\t%s' % (items[i][0], show_msg(items[i][1])) for i in sample])
+        for i, sp in zip(sample, spec):
+            if outs[i][2:] != sp:
+                raise RuntimeError('model and Spec disagree on an in-domain frame: ' + show_msg(items[i][1])[:200])
         return [None if o[2:].startswith('err:') or o.startswith('bad-') else bytes.fromhex(o[2:]) for o in outs]
 
     def generate(self, rng, tier, shard, nshards):
